@@ -5,6 +5,7 @@ matrices stored as lists of rows.  Import-free (the driver evaluates these at `R
 -/
 import PyttbModel.Core.Arr
 import PyttbModel.Core.Denote
+import PyttbModel.Alg.Nvecs
 namespace Pyttb
 
 variable {α : Type}
@@ -49,6 +50,17 @@ structure EigContract [Add α] [Mul α] [Zero α] [One α] (G : Mat α) (m K : N
   cols : ∀ row ∈ V, row.length = K
   eig : ∀ k, k < K → IsEigCol G V m k (w.getD k 0)
   ortho : OrthonormalCols V m K
+
+/-- What is assumed of the eigen-solver service for the matrix `y` (`m × m`) and the count `r`: on the
+path the code takes it returns orthonormal eigenpairs of `y` — `r` of them from the iterative solver,
+all `m` from the dense one — in any order.  (`sparseRep`: the dense path of `sptensor` calls `eig`.) -/
+def ServiceOK [Add α] [Mul α] [Zero α] [One α] (svc : EigService α) (sparseRep : Bool) (y : Mat α) (m r : Nat) :
+    Prop :=
+  match nvecsPath m r with
+  | .iter => EigContract y m r (svc.eigsh y r).1 (svc.eigsh y r).2
+  | .dense =>
+    if sparseRep then EigContract y m m (svc.eig y).1 (svc.eig y).2
+    else EigContract y m m (svc.eigh y).1 (svc.eigh y).2
 
 /-- A Tucker tensor as `ttensor` validates it: one factor per core mode, with as many columns as
 the core has entries in that mode. -/
